@@ -843,6 +843,58 @@ Proof.
   unfold tok_lines. rewrite lines_concat. lia.
 Qed.
 
+Lemma terminated_app : forall a b, b <> [] -> terminated (a ++ b) = terminated b.
+Proof.
+  induction a as [|c a IH]; intros b H; [reflexivity|].
+  cbn [app]. rewrite terminated_cons; [apply IH; exact H|].
+  destruct a; [exact H|discriminate].
+Qed.
+
+(* at the end of the text: refused iff the text has no final line terminator and its last character is protected *)
+Lemma ins_eof_from :
+  forall ls coms i st, lines_wf ls ->
+    has_ignore_from coms i st ls (st + len (concat ls), st + len (concat ls))
+    = negb (terminated (concat ls))
+      && has_ignore_from coms i st ls (st + len (concat ls) - 1, st + len (concat ls)).
+Proof.
+  induction ls as [|l tl IH]; intros coms i st W; [reflexivity|].
+  cbn [lines_wf] in W. destruct W as [NE [_ W]]. pose proof (len_pos_nonempty l NE) as LP.
+  cbn [has_ignore_from concat]. rewrite len_app.
+  destruct tl as [|l2 tl2].
+  - cbn [concat has_ignore_from]. rewrite app_nil_r, len_nil, !orb_false_r.
+    unfold touches_line, overlaps. cbn [fst snd].
+    replace (st + (len l + 0)) with (st + len l) by lia. rewrite !Z.eqb_refl.
+    destruct (st + len l - 1 =? st + len l) eqn:E; [lia|].
+    replace (st + len l <? st + len l) with false by lia.
+    replace (st + len l - 1 <? st + len l) with true by lia.
+    replace (st <? st + len l) with true by lia.
+    rewrite andb_false_r. cbn [orb andb]. rewrite !andb_assoc. reflexivity.
+  - assert (NT : concat (l2 :: tl2) <> []).
+    { cbn [lines_wf] in W. destruct W as [N2 _]. cbn [concat]. destruct l2; [contradiction|discriminate]. }
+    pose proof (len_pos_nonempty _ NT) as LQ.
+    rewrite (terminated_app l _ NT).
+    replace (st + (len l + len (concat (l2 :: tl2)))) with (st + len l + len (concat (l2 :: tl2))) by lia.
+    rewrite (IH coms (S i) (st + len l) W).
+    set (p := st + len l + len (concat (l2 :: tl2))) in *.
+    assert (T1 : touches_line (p, p) st (st + len l) l = false).
+    { unfold touches_line. cbn [fst snd]. rewrite Z.eqb_refl.
+      destruct (st <=? p) eqn:A, (p <? st + len l) eqn:B, (p =? st + len l) eqn:C; try lia; reflexivity. }
+    assert (T2 : touches_line (p - 1, p) st (st + len l) l = false).
+    { unfold touches_line, overlaps. cbn [fst snd]. destruct (p - 1 =? p) eqn:E; [lia|].
+      destruct (p - 1 <? st + len l) eqn:A; [lia|reflexivity]. }
+    rewrite T1, T2. reflexivity.
+Qed.
+
+Theorem has_ignore_insertion_at_end :
+  forall s coms,
+    has_ignore_comment s coms (len s, len s)
+    = negb (terminated s) && has_ignore_comment s coms (len s - 1, len s).
+Proof.
+  intros s coms. unfold has_ignore_comment.
+  pose proof (ins_eof_from (tok_lines s) coms 0%nat 0 (tok_lines_wf s)) as H.
+  unfold tok_lines in *. rewrite lines_concat in H. exact H.
+Qed.
+
 (* ------------------------------------------------------------------------------------------ *)
 (* R13.3 -- why the repairs F13-1/F13-2/F13-3 were needed: the arithmetic of the pinned code
    (str.splitlines line table, byte column added to a character offset, source[start - 1] at 0)
